@@ -3,7 +3,7 @@ from hypothesis import strategies as st
 
 from ..core import Clause, Enum, Violation, guard
 from .. import oracles as O
-from ..harness import params
+from ..harness import params, npcosts
 
 PROPERTY = "C02"
 LEVEL = "exploration"
@@ -61,7 +61,7 @@ def population(draw, max_n=24):
         costs.append(v + [mk])
     order = draw(st.permutations(list(range(len(costs)))))
     order2 = draw(st.permutations(list(range(len(costs)))))
-    return {"costs": [costs[i] for i in order], "order2": list(order2)}
+    return {"costs": [costs[i] for i in order], "order2": list(order2), "np": draw(st.booleans())}
 
 
 def check_sort(case):
@@ -77,7 +77,7 @@ def check_sort(case):
             pop = []
             for i in order:
                 ind = Individual([float(i)])
-                ind.costs_signed = list(costs[i])
+                ind.costs_signed = npcosts(costs[i], case.get("np"))
                 pop.append(ind)
             sel.fast_nondominated_sorting(pop)
         return {i: ind.features.get("front_number") for i, ind in zip(order, pop)}
@@ -107,7 +107,7 @@ def check_sort(case):
         objs = []
         for i in range(n):
             ind = Individual([float(i)])
-            ind.costs_signed = list(costs[i])
+            ind.costs_signed = npcosts(costs[i], case.get("np"))
             objs.append(ind)
         sel.fast_nondominated_sorting([objs[i] for i in case["order2"]])
         sel.fast_nondominated_sorting(list(objs))
@@ -130,7 +130,7 @@ def check_sort(case):
         for i in range(n):
             ind = Individual([float(i)])
             ind.features = objs[0].features.copy()
-            ind.costs_signed = list(costs[i])
+            ind.costs_signed = npcosts(costs[i], case.get("np"))
             clones.append(ind)
         sel.fast_nondominated_sorting(list(clones))
         cloned = [o.features.get("front_number") for o in clones]
@@ -166,9 +166,11 @@ def simplify(case):
     for i in range(n):
         keep = [k for k in range(n) if k != i]
         remap = {k: j for j, k in enumerate(keep)}
-        yield {"costs": [costs[k] for k in keep], "order2": [remap[k] for k in case["order2"] if k in remap]}
+        yield dict(case, costs=[costs[k] for k in keep], order2=[remap[k] for k in case["order2"] if k in remap])
     if case["order2"] != list(range(n)):
-        yield {"costs": costs, "order2": list(range(n))}
+        yield dict(case, order2=list(range(n)))
+    if case.get("np"):
+        yield dict(case, np=False)
 
 
 def decode_bytes(fdp):
